@@ -130,6 +130,22 @@ def examine(c, i, al_rc):
     return out
 
 
+def collide(rng, inner):
+    """give one ordinary parameter of the inner signature the name of a star
+    parameter (args / kwargs, the threading.Thread(target, args=(), kwargs=None)
+    convention): it is an ordinary parameter and keeps its own provenance entry"""
+    named = [i for i, p in enumerate(inner) if p[1] in ('PO', 'PK', 'KO')]
+    if not named:
+        return inner
+    new = id_of_name(rng.choice(['args', 'kwargs']))
+    if any(p[0] == new for p in inner):
+        return inner
+    i = rng.choice(named)
+    out = list(inner)
+    out[i] = (new,) + tuple(inner[i][1:])
+    return out
+
+
 def gen(ctx):
     rng = ctx.rng('gen')
     U2 = universe(2, ['a', 'b'], stars=(('args', 'kwargs'), ('va', 'vk')))
@@ -147,7 +163,10 @@ def gen(ctx):
         elif k < 0.35:
             cases.append(Merge([mk_desc(rng.choice(U3), 100 + j) for j in range(rng.choice([2, 3]))]))
         elif k < 0.6:
-            cases.append(Embed([mk_desc(rng.choice(U2), 100), mk_desc(rng.choice(U2cd), 101)]
+            inner = rng.choice(U2cd)
+            if rng.random() < 0.15:
+                inner = collide(rng, inner)
+            cases.append(Embed([mk_desc(rng.choice(U2), 100), mk_desc(inner, 101)]
                                + ([mk_desc(random_sig(rng, 'ef', 2), 102)] if rng.random() < 0.3 else []),
                                rng.random() < 0.8, rng.random() < 0.8))
         elif k < 0.75:
@@ -163,6 +182,8 @@ def gen(ctx):
             cases.append(Partial(mk_desc(ps, 100), rng.randint(0, len(ps)), [(x, 5 + j) for j, x in enumerate(ns)]))
         else:
             o, i = rng.choice(U2), rng.choice(U2cd)
+            if rng.random() < 0.15:
+                i = collide(rng, i)
             names = [p[0] for p in i if p[1] != 'PO']
             ns = rng.sample(names, rng.randint(0, min(1, len(names))))
             cases.append(Forwards(mk_desc(o, 100), mk_desc(i, 101), rng.randint(0, 2), ns,
